@@ -232,4 +232,102 @@ pub mod add_unit {
     include!("harness_add.rs");
 }
 
+/// C18-U4: impl blocks attach their methods / constants to the type they name, wherever the block is
+/// written; modules nest; an impl block for an unregistered type is a registration error.
+pub mod impl_unit {
+    use crate::ast::Identifier;
+    use crate::runtime::{Location, RegistrationError, RuntimeType, Types};
+    use crate::typechecker::scope::{ResolvedName, ScopeRef};
+    use crate::typechecker::TypeChecker;
+    use crate::TypeId;
+
+    pub mod items {
+        pub use crate::runtime::Location;
+        use crate::ast::Identifier;
+        use crate::TypeId;
+        #[derive(Clone, Debug)]
+        pub struct Function {
+            pub id: u8,
+        }
+        #[derive(Clone, Debug)]
+        pub struct Type {
+            pub id: u8,
+            pub location: Location,
+        }
+        #[derive(Clone, Debug)]
+        pub struct Constant {
+            pub id: u8,
+            pub location: Location,
+        }
+        #[derive(Clone, Debug)]
+        pub struct Use {
+            pub location: Location,
+        }
+        /*@ENUM_ITEM@*/
+
+        /*@STRUCT_MODULE@*/
+
+        /*@STRUCT_IMPL@*/
+    }
+    use items::{Constant, Function, Impl, Item, Module};
+
+    #[derive(Clone, Copy, Debug, PartialEq, Eq)]
+    pub enum Declared {
+        Function { scope: ScopeRef, id: u8, is_method: bool },
+        Constant { scope: ScopeRef, id: u8 },
+        /// the recursive call: declare the items of `children` (identified by their number and the id
+        /// of the first function / constant among them) in `scope`
+        Nested { scope: ScopeRef, n: usize, first_id: u8 },
+    }
+    pub struct Rt {
+        pub type_checker: TypeChecker,
+        pub types: Types,
+        pub log: [Option<Declared>; 6],
+        pub n_log: usize,
+    }
+    impl Rt {
+        fn record(&mut self, d: Declared) {
+            assert!(self.n_log < 6, "shim: log full");
+            self.log[self.n_log] = Some(d);
+            self.n_log += 1;
+        }
+        fn declare_function(&mut self, scope: ScopeRef, f: &Function, is_method: bool) -> Result<(), RegistrationError> {
+            self.record(Declared::Function { scope, id: f.id, is_method });
+            Ok(())
+        }
+        fn first_id(items: &[Item]) -> u8 {
+            match items.first() {
+                Some(Item::Function(f)) => f.id,
+                Some(Item::Constant(c)) => c.id,
+                _ => 0,
+            }
+        }
+        /// callee contract of the recursive calls: Ok, having declared `children` in `scope`
+        fn declare_functions_callee(&mut self, scope: ScopeRef, children: &[Item]) -> Result<(), RegistrationError> {
+            self.record(Declared::Nested { scope, n: children.len(), first_id: Self::first_id(children) });
+            Ok(())
+        }
+        fn declare_constants_callee(&mut self, scope: ScopeRef, children: &[Item]) -> Result<(), RegistrationError> {
+            self.record(Declared::Nested { scope, n: children.len(), first_id: Self::first_id(children) });
+            Ok(())
+        }
+        fn declare_constant(&mut self, scope: ScopeRef, c: &Constant) -> Result<(), RegistrationError> {
+            self.record(Declared::Constant { scope, id: c.id });
+            Ok(())
+        }
+
+        /*@FN_DECLARE_FUNCTIONS@*/
+
+        /*@FN_DECLARE_METHODS@*/
+
+        /*@FN_DECLARE_CONSTANTS@*/
+
+        /*@IMPL_RT_HELPERS@*/
+
+        /*@FN_GET_RUNTIME_TYPE@*/
+    }
+
+    include!("harness_impl.rs");
+}
+
 fn main() {}
